@@ -1,4 +1,5 @@
 import Fabio.Model.C07Chain
+import Fabio.Model.C07Spec
 import Fabio.Lemmas.C17
 /-!
 Helper lemmas for `Props/C07Chain.lean` (core Lean only): the call sequence `Reply.script` of the reverse proxy as
@@ -66,5 +67,66 @@ theorem bare_replay (C : C17.Cfg Z) (cf : Bool) (h0 : Hdr) (r : Reply) (hw : r.w
     (C17.bareRun C cf (h0, {}) r.script).2.obs (C17.bareRun C cf (h0, {}) r.script).1 = r.asIs h0 := by
   rw [Fabio.Lemmas.C17.bare_obs, script_decision C cf h0 r hw]
   simp [Reply.asIs, writesOf_script]
+
+/-! ### `acceptsGzip` against the specification's reading of Accept-Encoding (`C07Spec.gzipAcceptable`) -/
+
+open Fabio.Model.C07Spec in
+/-- the first `q` parameter decides in both; the code asks `ParseFloat`, the specification the RFC's literals -/
+theorem zeroWeightL_qParam (ps : List (List Char)) :
+    C17.zeroWeightL ps = (match qParam ps with | some v => C17.zeroLit v | none => false) := by
+  induction ps with
+  | nil => rfl
+  | cons p ps ih =>
+    simp only [C17.zeroWeightL, qParam]
+    split <;> simp_all
+
+open Fabio.Model.C07Spec in
+/-- every zero of the RFC's `qvalue` grammar is a zero for `strconv.ParseFloat` -/
+theorem rfcZero_zeroLit (v : List Char) (h : rfcZero v = true) : C17.zeroLit v = true := by
+  simp only [rfcZero, Bool.or_eq_true, beq_iff_eq] at h
+  rcases h with (((h | h) | h) | h) | h <;> subst h <;> decide
+
+open Fabio.Model.C07Spec in
+/-- an element the specification reads as a refusal is one for the code -/
+theorem refused_zeroWeight (e : List Char) (h : refused e = true) : C17.zeroWeight (C17.cut ';' e).2 = true := by
+  unfold refused at h
+  unfold C17.zeroWeight
+  rw [zeroWeightL_qParam]
+  split at h
+  · next v hv => rw [hv]; exact rfcZero_zeroLit v h
+  · cases h
+
+/-- when the walk of `acceptsGzip` says yes, it stopped at an element that names `gzip` and is not weighted zero -/
+theorem acceptsL_witness (es : List (List Char)) (h : C17.acceptsL es = true) :
+    ∃ e ∈ es, C17.trim (C17.cut ';' e).1 = C17.encGzip.toList ∧ C17.zeroWeight (C17.cut ';' e).2 = false := by
+  induction es with
+  | nil => cases h
+  | cons e es ih =>
+    simp only [C17.acceptsL] at h
+    split at h
+    · next hn =>
+      refine ⟨e, List.mem_cons_self, ?_, ?_⟩
+      · simpa using hn
+      · simpa using h
+    · obtain ⟨e', hm, h1, h2⟩ := ih h
+      exact ⟨e', List.mem_cons_of_mem _ hm, h1, h2⟩
+
+open Fabio.Model.C07Spec in
+theorem acceptsL_acceptableL (es : List (List Char)) (h : C17.acceptsL es = true) : acceptableL es = true := by
+  obtain ⟨e, hm, hn, hz⟩ := acceptsL_witness es h
+  have hnamed : namesCoding "gzip".toList e = true := by
+    simp only [namesCoding, hn]; decide
+  have hnr : refused e = false := by
+    cases hr : refused e with
+    | false => rfl
+    | true => rw [refused_zeroWeight e hr] at hz; cases hz
+  have hin : e ∈ es.filter (namesCoding "gzip".toList) := List.mem_filter.mpr ⟨hm, hnamed⟩
+  unfold acceptableL
+  have hne : (es.filter (namesCoding "gzip".toList)).isEmpty = false := by
+    cases hl : es.filter (namesCoding "gzip".toList) with
+    | nil => rw [hl] at hin; cases hin
+    | cons _ _ => rfl
+  simp only [hne]
+  exact List.any_eq_true.mpr ⟨e, hin, by simp [hnr]⟩
 
 end Fabio.Lemmas.C07Chain
